@@ -19,7 +19,11 @@ VERIF_DIR = os.path.dirname(os.path.dirname(os.path.realpath(__file__)))
 _STDLIB = os.path.realpath(sysconfig.get_paths()["stdlib"])
 
 
-FRAME_CLAUSE = {"map.rate": "C13", "convert": "C08"}
+FRAME_CLAUSE = {"map.rate": "C13", "convert": "C08",
+                # a plain sequence is not changed by sorted(seq), seq[i], iteration, filtering or seq + other: a list that is,
+                # no longer answers later operations the way the sequence of its rows would (C16 "after any earlier operations")
+                "list.sorted": "C16", "list.filter": "C16", "list.get_int": "C16", "list.get_slice": "C16", "list.get_mask": "C16",
+                "list.iter": "C16", "list.append": "C16", "list.query": "C16", "list.deepcopy": "C16", "list.move": "C16"}
 WRITE_PROP = {"osu": "C01", "qua": "C06", "sm": "C03", "bms": "C05"}
 
 
